@@ -124,6 +124,8 @@ def check(ctx):
             if isinstance(n, ast.Attribute) and isinstance(n.ctx, ast.Store) and n.attr in ("lineno", "column") and mod.name in ("c_lexer", "c_parser"):
                 ctx.oblige("R-C11.4", f"{mod.name}:{n.lineno} store .{n.attr}", False)
                 ctx.violation("R-C11.4", f"restamp:{mod.name}:{n.attr}", f"a token's .{n.attr} is re-assigned after lexing", file=mod.rel, function=getattr(S.enclosing_function(n), "name", ""), line=n.lineno)
+    from . import c09
+    c09.token_spelling_sites(ctx, "R-C11.4")      # the offset a token is stamped with is where its spelling starts
     tc = px.method("CParser", "_tok_coord")
     tokp = tc.args.args[1].arg
     coords = [c for c in ast.walk(tc) if isinstance(c, ast.Call) and S.unparse(c.func) in ("Coord", "self._coord")]
@@ -132,6 +134,19 @@ def check(ctx):
     ctx.oblige("R-C11.4", "_tok_coord uses the token's line, column and file", ok, sample={"rule": "R-C11.4", "arguments": sorted(uses)})
     if not ok:
         ctx.violation("R-C11.4", "tok-coord", f"_tok_coord must build the coordinate from the token's own lineno, column and filename (found {sorted(uses)}): reading the lexer's current file name when a node is built mislocates nodes that precede a #line marker", file=px.rel, function="CParser._tok_coord")
+    # every exit of _tok_coord / _coord hands out a coordinate built right there from its own arguments: no memo, no state
+    for fname in ("_tok_coord", "_coord"):
+        f2 = px.method("CParser", fname)
+        rets = [r for r in ast.walk(f2) if isinstance(r, ast.Return)]
+        fresh = all(isinstance(r.value, ast.Call) and S.unparse(r.value.func) in ("Coord", "self._coord") for r in rets) and bool(rets)
+        writes = sorted({S.unparse(t) for n in ast.walk(f2) if isinstance(n, (ast.Assign, ast.AugAssign, ast.AnnAssign)) for t in (n.targets if isinstance(n, ast.Assign) else [n.target]) if isinstance(t, (ast.Attribute, ast.Subscript))})
+        reads = sorted({n.attr for n in ast.walk(f2) if isinstance(n, ast.Attribute) and isinstance(n.value, ast.Name) and n.value.id == "self"} - {"_coord", "clex"})
+        ok = fresh and not writes and not reads
+        ctx.oblige("R-C11.4", f"{fname} is a pure function of its token / arguments", ok, sample={"rule": "R-C11.4", "function": fname, "returns": [S.unparse(r.value)[:60] for r in rets if r.value is not None], "state written": writes, "state read": reads})
+        if not ok:
+            ctx.violation("R-C11.4", f"coord-not-pure:{fname}", f"{fname} must return a coordinate constructed from its own arguments on every path; it {'returns a value that is not constructed there' if not fresh else ''}"
+                          f"{' writes ' + str(writes) if writes else ''}{' reads self.' + ', self.'.join(reads) if reads else ''}: a remembered coordinate can belong to another token (same line and column in another file, or after a #line)",
+                          file=px.rel, function=f"CParser.{fname}", line=f2.lineno)
     cg = CG.ClassCalls("c_parser", "CParser")
     callers = cg.callers("_coord")
     ok = callers <= {"_tok_coord", "_lex_error_func"}
